@@ -18,7 +18,7 @@ use crate::gen::{self, GenCfg, V};
 use crate::prop::{Eval, PropDef, Tier};
 use crate::rng::{hash_str, mix, Rng};
 use crate::scenario::{from_name, Call, Fmt, Scenario, ALL_FMTS, STREAM_FMTS};
-use crate::simio::{wtoken, Sched, WFault};
+use crate::simio::{wtoken, WFault};
 
 pub static DEF: PropDef = PropDef {
 	id: "C11",
@@ -28,15 +28,16 @@ pub static DEF: PropDef = PropDef {
 	eval,
 	shrink,
 	rule: "run = (generated document(s), source format, slice/reader, target, defect family). wfail: the consumer fails from EVERY accepted-byte count k of the fault-free output (so the failing write is in turn a scalar, string piece, bracket, separator, newline, '---'); syntax: EVERY byte position is overwritten in turn by a syntax-breaking byte and the three streaming targets are compared; planted: one unrepresentable value (null/composite/binary key, binary value, null, oversized integer) at a random position of seq-index / map-key / map-value steps. Non-trivial: at least one enumerated defect produced an error. Distinct = distinct (bytes, formats, family, supply).",
-	real: LIB_REAL,
-	stub: LIB_STUB,
+	real: &["xt library under the simulator (9 of 10 runs)", "the shipped debug and release binaries, whose standard-error line is compared with the library's error text (1 of 10 runs)", "serde_json, serde_yaml, unsafe-libyaml, rmp, rmp-serde, toml, toml_edit"],
+	stub: &["producer/consumer/caller (library runs)", "byte transport of fds 0/1 and input files, mmap success (process runs: LD_PRELOAD interposer)"],
 	assumptions: &[
+		"process runs: the text the shipped binary prints for a failing input must contain the complete error text the library returns for the same bytes, format and supply mode; for an injected ENOSPC/EIO on standard output it must contain the operating system's text for that errno",
 		"the serializer's 'own reason' is obtained by driving the same serializer crate directly in the harness: with an always-failing writer (write faults) or with the offending value alone (unrepresentable values)",
 		"rmp_serde by design omits the io error text from its Display ('invalid value write: ...'); for MessagePack output that phrase is the expected reason",
 		"an input counts as malformed when the source format's own parser, driven by the harness into serde's IgnoredAny, rejects it",
 	],
-	expected_probes: &["wfail.fired", "wfail.on_separator", "wfail.on_scalar_or_string", "wfail.on_bracket", "wfail.on_newline_or_marker", "syntax.malformed", "syntax.still_valid", "planted.key", "planted.value", "planted.err", "target.json", "target.yaml", "target.msgpack", "target.toml"],
-	needs_bins: false,
+	expected_probes: &["wfail.fired", "wfail.on_separator", "wfail.on_scalar_or_string", "wfail.on_bracket", "wfail.on_newline_or_marker", "syntax.malformed", "syntax.still_valid", "planted.key", "planted.value", "planted.err", "target.json", "target.yaml", "target.msgpack", "target.toml", "cli.checked", "cli.long_message", "cli.wfail.fired"],
+	needs_bins: true,
 	watchdog_s: 30,
 };
 
@@ -151,7 +152,183 @@ impl TomlProbe for toml::Deserializer<'_> {
 	}
 }
 
+/// Process slice: one failing input through the shipped binary. The diagnostics are made long
+/// on purpose in most runs (TOML renders the whole offending line, serde_yaml prefixes the key
+/// path of the failing node), because the cause sits at the END of xt's messages.
+fn gen_proc(seed: u64, idx: u64) -> J {
+	use crate::procsim::{FileSpec, ProcCase, ReadPlan, EIO, ENOSPC};
+	let mut r = Rng::derive(seed, "C11p", idx);
+	let mut c = ProcCase { bin: if r.chance(1, 2) { "debug" } else { "release" }.to_owned(), ..Default::default() };
+	let len = match r.below(4) {
+		0 => r.range(1, 200),
+		1 => r.range(3900, 4300),
+		_ => r.range(2000, 20_000),
+	};
+	let filler = |r: &mut Rng, n: usize| -> String { (0..n).map(|_| (b'a' + r.below(26) as u8) as char).collect() };
+	let shape = *r.pick(&["toml_line", "toml_line", "yaml_path", "yaml_path", "yaml_path_wfail", "json_long", "toml_valid_unrep"]);
+	let mut to = *r.pick(&ALL_FMTS);
+	let (ext, bytes): (&str, Vec<u8>) = match shape {
+		"toml_line" => {
+			let x = filler(&mut r, len);
+			let t = match r.below(6) {
+				0 => format!("k = \"{x}\n"),
+				1 => format!("k = [1, 2, \"{x}\"\nj = 1\n"),
+				2 => format!("k = \"{x}\" junk\n"),
+				3 => format!("a = 1\nk = {{ {x} = 1, {x} = 2 }}\n"),
+				4 => format!("{x} = 1\n{x} = 2\n"),
+				_ => format!("k = \"{x}\"\n[t]\nv = 2024-13-45\n"),
+			};
+			("toml", t.into_bytes())
+		}
+		"toml_valid_unrep" => {
+			// valid TOML whose translation the target refuses or that a later defect breaks
+			let x = filler(&mut r, len);
+			("toml", format!("k = \"{x}\"\nd = 1979-05-27T07:32:00Z\nq = [1, \"{x}\", ]]\n").into_bytes())
+		}
+		"json_long" => {
+			let x = filler(&mut r, len);
+			let t = match r.below(3) {
+				0 => format!("{{\"{x}\": [1, 2,, 3]}}"),
+				1 => format!("[\"{x}\", {{\"a\": tru}}]"),
+				_ => format!("{{\"{x}\": {{\"{x}\": nul}}}}"),
+			};
+			("json", t.into_bytes())
+		}
+		_ => {
+			// nested mappings with long keys; the innermost holds a value or key the target refuses
+			// (libyaml limits a simple key to 1024 characters: long paths need depth)
+			let depth = r.range(1, 9);
+			let klen = (len / depth).clamp(1, if r.chance(1, 20) { 1100 } else { 1000 });
+			let mut t = String::from("---\n");
+			let flow = r.chance(1, 2);
+			let leaf = if shape == "yaml_path_wfail" {
+				"[1, 2, 3, \"four\", 5.5]".to_owned()
+			} else {
+				match to {
+					Fmt::Toml => (*r.pick(&["~", "[1, ~]", "{? [1] : 2}"])).to_owned(),
+					Fmt::Yaml | Fmt::Msgpack => {
+						// these two targets accept everything YAML can express: plant a syntax error instead
+						(*r.pick(&["[1, 2", "\"open", "{a: 1, b"])).to_owned()
+					}
+					Fmt::Json => (*r.pick(&["{~: 1}", "{[1, 2]: 1}", "{{a: 1}: 1}", "{? ~ : x}"])).to_owned(),
+				}
+			};
+			if flow {
+				for _ in 0..depth {
+					t.push_str(&format!("{{{}: ", filler(&mut r, klen)));
+				}
+				t.push_str(&leaf);
+				for _ in 0..depth {
+					t.push('}');
+				}
+				t.push('\n');
+			} else {
+				for d in 0..depth {
+					t.push_str(&"  ".repeat(d));
+					t.push_str(&filler(&mut r, klen));
+					t.push_str(":\n");
+				}
+				t.push_str(&"  ".repeat(depth));
+				t.push_str(&format!("leaf: {leaf}\n"));
+			}
+			("yaml", t.into_bytes())
+		}
+	};
+	if shape == "yaml_path_wfail" {
+		to = *r.pick(&STREAM_FMTS);
+		let k = r.range(0, bytes.len().min(6000));
+		c.wfail = Some((k, if r.chance(1, 2) { ENOSPC } else { EIO }));
+	}
+	if to != Fmt::Json || r.chance(1, 3) {
+		c.args.push(format!("-t{}", to.letter()));
+	}
+	let name = format!("in.{ext}");
+	let sched = gen::gen_sched(&mut r, bytes.len());
+	c.nommap = r.chance(1, 2);
+	if r.chance(1, 5) {
+		c.stdin = Some(bytes);
+		c.stdin_plan = Some(ReadPlan { sched, ..Default::default() });
+		c.args.push(format!("-f{}", &ext[..1]));
+	} else {
+		c.files.push(FileSpec { name: name.clone(), kind: "file".into(), bytes, plan: Some(ReadPlan { sched, ..Default::default() }) });
+		c.args.push(name);
+	}
+	if r.chance(1, 3) {
+		c.wsched = gen::gen_sched(&mut r, 512);
+	}
+	c.params.insert("shape".into(), json!(shape));
+	c.to_json()
+}
+
+fn find(hay: &[u8], needle: &[u8]) -> bool {
+	needle.is_empty() || hay.windows(needle.len()).any(|w| w == needle)
+}
+
+fn eval_proc(case: &J) -> Eval {
+	use crate::procsim;
+	let mut ev = Eval::default();
+	let Some(c) = procsim::ProcCase::from_json(case) else { return ev };
+	ev.count("p.spawn", 1);
+	let parsed = procsim::parse_args(&c.args);
+	let ex = procsim::expect_run(&c, &parsed);
+	ev.execs += 1;
+	let o = procsim::run(&c);
+	procsim::write_plan_note(&mut ev, &c, &o);
+	ev.key = crate::rng::fnv(case.to_string().as_bytes());
+	ev.trace = mix(hash_str("cli"), hash_str(&o.status()));
+	if !procsim::proc_invariants(&mut ev, &c, &o) {
+		return ev;
+	}
+	let args = format!("{:?}", c.args);
+	let shape = c.params.get("shape").and_then(J::as_str).unwrap_or("?").to_owned();
+	let tag = format!("{shape}/{}", parsed.to.name());
+	let wfired = c.wfail.is_some() && o.log.iter().any(|l| l.starts_with("W ") && l.split(' ').nth(2) == Some("-1"));
+	let lib_text = match &ex.failing {
+		Some((_, name)) => ex.failure_kind.strip_prefix("translate: ").map(|t| (name.clone(), t.to_owned())),
+		None => None,
+	};
+	if wfired {
+		// The consumer failed first (or as well): the operating system's reason must be named -
+		// unless the input's own defect was reached before the failing write, in which case
+		// the library's text for that defect is the cause.
+		let errno = c.wfail.map_or(0, |w| w.1);
+		ev.count("cli.wfail.fired", 1);
+		ev.count("cli.checked", 1);
+		ev.count("cli.long_message", u64::from(o.stderr.len() > 4000));
+		ev.nontrivial = true;
+		let reason = io::Error::from_raw_os_error(errno).to_string();
+		let lib_ok = lib_text.as_ref().is_some_and(|(_, t)| find(&o.stderr, t.as_bytes()));
+		if o.code != Some(1) {
+			ev.violate(format!("cli/wfail-exit/{tag}"), format!("xt {args}: write(1) failed with errno {errno} but xt ended with {}", o.status()));
+		} else if !find(&o.stderr, reason.as_bytes()) && !lib_ok && !(parsed.to == Fmt::Msgpack && (find(&o.stderr, b"invalid value write") || find(&o.stderr, b"invalid marker write"))) {
+			// (rmp_serde leaves the io error's text out of its own message by design: see assumptions)
+			ev.violate(format!("cli/wfail-reason-missing/{tag}"), format!("xt {args}: write(1) failed with {reason:?}; standard error ({} bytes) does not say so; it ends {:?}", o.stderr.len(), show(&o.stderr[o.stderr.len().saturating_sub(160)..])));
+		}
+	} else if let Some((name, text)) = lib_text {
+		// The library fails on this input: the binary must fail too and print the library's text.
+		ev.count("cli.checked", 1);
+		ev.count("cli.long_message", u64::from(text.len() > 4000));
+		ev.nontrivial = true;
+		if o.code != Some(1) {
+			ev.violate(format!("cli/exit/{tag}"), format!("xt {args}: the library refuses this input ({:?}) but xt ended with {}", show(text.as_bytes()), o.status()));
+		} else if !find(&o.stderr, text.as_bytes()) {
+			let tail_at = text.len().saturating_sub(120);
+			let what = if find(&o.stderr, text[..text.len().min(60)].as_bytes()) { "reason-cut-off" } else { "reason-missing" };
+			ev.violate(
+				format!("cli/{what}/{tag}"),
+				format!("xt {args}: the library's error text for {name} is {} bytes and ends {:?}; standard error ({} bytes) does not contain it and ends {:?}", text.len(), show(&text.as_bytes()[tail_at..]), o.stderr.len(), show(&o.stderr[o.stderr.len().saturating_sub(120)..])),
+			);
+		} else if !o.stderr.starts_with(format!("xt error in {name}: ").as_bytes()) {
+			ev.violate(format!("cli/prefix/{tag}"), format!("xt {args}: standard error does not name the failing input {name:?}: {:?}", show(&o.stderr)));
+		}
+	}
+	ev
+}
+
 fn gen(seed: u64, idx: u64, _t: Tier) -> J {
+	if idx % 10 == 9 {
+		return gen_proc(seed, idx);
+	}
 	let mut r = Rng::derive(seed, "C11", idx);
 	let mode = *r.pick(&["wfail", "wfail", "syntax", "syntax", "planted", "planted", "planted"]);
 	let reader = r.chance(1, 2);
@@ -241,6 +418,9 @@ fn positions(n: usize) -> Vec<usize> {
 }
 
 fn eval(case: &J) -> Eval {
+	if case["kind"] == "proc" {
+		return eval_proc(case);
+	}
 	let sc = parse(case);
 	let mut ev = Eval::default();
 	let mode = sc.param_s("mode").unwrap_or("wfail").to_owned();
@@ -377,6 +557,9 @@ fn eval(case: &J) -> Eval {
 }
 
 fn shrink(case: &J) -> Vec<J> {
+	if case["kind"] == "proc" {
+		return vec![];
+	}
 	let sc = parse(case);
 	let mut out = vec![];
 	let mode = sc.param_s("mode").unwrap_or("");
